@@ -58,12 +58,21 @@ class Rule:
                 doc["examples"] = []
 
             # strip final new lines:
-            for idx, desc_i in enumerate(doc["description"]):
-                doc["description"][idx] = desc_i.strip()
-            for idx, ex_i in enumerate(doc["examples"]):
-                doc["examples"][idx] = ex_i.strip()
+            for doc_key in ("description", "examples"):
+                for idx, item_i in enumerate(doc[doc_key]):
+                    if not isinstance(item_i, str):
+                        raise MalformedRuleSpec(
+                            f"Rule doc {doc_key} items must be strings, but found: "
+                            f"{item_i!r}."
+                        )
+                    doc[doc_key][idx] = item_i.strip()
 
         cast_spec = spec.get("cast")
+        if cast_spec and not isinstance(cast_spec, dict):
+            raise MalformedRuleSpec(
+                f"Rule cast must be a mapping from type name to type name, but found: "
+                f"{cast_spec!r}."
+            )
         cast = {} if cast_spec else cast_spec
         for cast_from, cast_to in (cast_spec or {}).items():
             try:
